@@ -820,6 +820,63 @@ def run_memory_case(rng, name, mk, cycles, with_reset=False):
     return cycles, None, "ok"
 
 
+def memory_findings():
+    """Deviations of the memory templates from the simulator's memory model (Migen MemoryToArray), replayed as
+    finding candidates: (id, what, reproduces, detail)."""
+    from migen.fhdl.specials import WRITE_FIRST, NO_CHANGE
+    out = []
+    B = dict(memory_builders("quick"))
+    # (a) NO_CHANGE with byte enables partially set
+    import inspect
+    mk_nc = B["Memory/no-change/16x4/gran8/re"]
+    MemDut = mk_nc().__class__
+    n, bad, st = run_memory_case(random.Random(5), "Memory/no-change/partial-we",
+                                 lambda: MemDut(16, 4, NO_CHANGE, 8, True, False, None), 400)
+    out.append(("C01-memory-nochange-partial-we",
+                "NO_CHANGE port with we_granularity: the simulator (Migen MemoryToArray: If(~we, read)) reads unless ALL "
+                "byte enables are set, the emitted text reads only when none is set (`if (!we)`)",
+                bad is not None, bad and {k: bad[k] for k in ("cycle", "port", "simulator", "verilog", "trace")}))
+    # (b) reset asserted: the simulator restores memory content and port registers, the text does not
+    n, bad, st = run_memory_case(random.Random(6), "Memory/write-first/reset",
+                                 B["Memory/write-first/8x8"], 400, with_reset=True)
+    out.append(("C01-memory-not-reset",
+                "asserting the domain reset restores the memory words and the read-port address/data registers in the "
+                "simulator (they are ordinary sync registers after MemoryToArray); the emitted memory logic has no reset",
+                bad is not None, bad and {k: bad[k] for k in ("cycle", "port", "simulator", "verilog", "trace")}))
+    # (c) a top-level port that is a register with a non-zero reset value carries no initialiser in the text
+    from migen import Module, Signal, ClockDomain
+    from netlist import Netlist
+
+    def build():
+        m = Module()
+        m.clock_domains.cd_sys = ClockDomain("sys")
+        o = Signal(4, reset=9, name_override="o")
+        m.sync += o.eq(o)
+        return m, o
+    mA, oA = build()
+    nl = Netlist(mA.get_fragment(), clocks=("sys",))
+    nl.settle()
+    sim = nl.getu(oA)
+    mB, oB = build()
+    cap = L.convert_capture(mB.get_fragment(), {oB, mB.cd_sys.clk, mB.cd_sys.rst})
+    sigs = L.module_signals(cap)
+    ids = SigIds()
+    for s_ in sigs:
+        ids.get(s_)
+    name_ids = {cap.ns.get_name(s_): ids.get(s_) for s_ in sigs}
+    mt = L.parse_module(cap.text, name_ids)
+    pv = L.PyVSim(mt, name_ids)
+    pv.settle()
+    ver = pv.state[ids.get(oB)]
+    decl = [l for l in cap.text.splitlines() if " o" in l and "reg" in l][:1]
+    out.append(("C01-output-reg-no-initialiser",
+                "`output reg` ports are declared without `= reset` (only internal regs get the initialiser): a port "
+                "register with reset value 9 powers up as 9 in the simulator and uninitialised (0 after synthesis, X in "
+                "a Verilog simulator) in the text until the first reset",
+                sim != ver, {"simulator": sim, "verilog": ver, "declaration": decl}))
+    return out
+
+
 def l3_memories(ctx, cycles, dis):
     tot = dict(cases=0, unsupported=0, cycles=0)
     for name, mk in memory_builders(ctx.tier):
@@ -909,6 +966,26 @@ def build_ast(a, sigs):
     if k == "rep":
         return Replicate(build_ast(a[1], sigs), a[2])
     raise ValueError(k)
+
+
+def dump_ast(e, sigs):
+    """Inverse of build_ast."""
+    from migen.fhdl.structure import _Operator, _Slice, Cat, Replicate, Constant, Signal
+    if isinstance(e, Signal):
+        return ["sig", next(i for i, s in enumerate(sigs) if s is e)]
+    if isinstance(e, Constant):
+        return ["const", e.value, e.nbits, bool(e.signed)]
+    if isinstance(e, _Operator):
+        if e.op == "m":
+            return ["mux"] + [dump_ast(o, sigs) for o in e.operands]
+        return ["op", e.op] + [dump_ast(o, sigs) for o in e.operands]
+    if isinstance(e, _Slice):
+        return ["slice", dump_ast(e.value, sigs), e.start, e.stop]
+    if isinstance(e, Cat):
+        return ["cat"] + [dump_ast(o, sigs) for o in e.l]
+    if isinstance(e, Replicate):
+        return ["rep", dump_ast(e.v, sigs), e.n]
+    raise ValueError(type(e))
 
 
 def run_witness(ctx, w):
@@ -1005,6 +1082,12 @@ def corpus_run(ctx, dis):
             else:
                 ctx.cov.notes.append("finding witness %s no longer reproduces (simulator = verilog = %s, text %s)" % (
                     w["id"], r["simulator"], r["text"]))
+    for fid, what, rep, detail in memory_findings():
+        n += 1
+        if rep:
+            reproduced.append(fid)
+        else:
+            ctx.cov.notes.append("finding witness %s no longer reproduces" % fid)
     ctx.cov.add_cases("corpus witnesses (%d findings reproduce)" % len(reproduced), n, n, exhaustive=True)
     ctx.reproduced = reproduced
     ctx.log("corpus: %d witnesses, findings that reproduce: %s" % (n, ", ".join(reproduced)))
@@ -1079,6 +1162,8 @@ def oracle_expressions(rng, n_expr, log=None):
             n += 1
             if real != gold:
                 return n, {"oracle": "golden-reading", "verilog_text": text, "target_width": lw,
+                           "replay": {"kind": "expr", "sigs": [[s.nbits, bool(s.signed)] for s in sigs],
+                                      "expr": dump_ast(e, sigs), "lw": lw, "env": list(env)},
                            "signals": {"s%d" % i: {"width": s.nbits, "signed": s.signed, "value": v}
                                        for i, (s, v) in enumerate(zip(sigs, env))},
                            "simulator_stores": real, "verilog_stores": gold,
@@ -1177,6 +1262,7 @@ def oracle_modules(rng, n_mod, cycles):
                 if a != b:
                     t0 = cap.text
                     return n, {"oracle": "golden-module", "seed": seed, "cycle": t, "port": cap.ns.get_name(iosB[j]),
+                               "replay": {"kind": "safe-module", "seed": seed, "trace": trace},
                                "simulator": a, "verilog": b,
                                "inputs": [cap.ns.get_name(iosB[j2]) for j2 in in_idx], "trace": trace,
                                "verilog_text": t0[t0.index("module"):][:3000],
@@ -1234,11 +1320,63 @@ def probes(ctx):
                 out.append((w["id"], fails, what))
             elif fails:
                 ctx.cov.notes.append("CANDIDATE-FINDING (not yet in known_findings.json) " + w["id"] + ": " + what)
+        for fid, what, rep, detail in memory_findings():
+            if fid in listed:
+                out.append((fid, rep, what + " " + json.dumps(detail)))
+            elif rep:
+                ctx.cov.notes.append("CANDIDATE-FINDING (not yet in known_findings.json) " + fid + ": " + what + " " + json.dumps(detail)[:300])
     finally:
         ctx.lean = lean
     return out
 
 
 def replay(ctx, payload):
-    print(json.dumps(payload, indent=1)[:4000])
+    """Re-execute a replay file on the real code: exit status 1 if the recorded failing input still makes the
+    simulator and the emitted Verilog part, 0 if not (or if the file holds no re-executable input)."""
+    fi = payload.get("failing_input") or {}
+    rp = fi.get("replay")
+    print(json.dumps({k: v for k, v in fi.items() if k not in ("replay", "trace")}, indent=1)[:3000])
+    if not rp:
+        print("no re-executable failing input in this replay file")
+        return 0
+    ctx.lean = None
+    if rp["kind"] == "expr":
+        r = run_witness(ctx, dict(rp, kind="expr"))
+        print("simulator stores %s, Verilog text %r stores %s" % (r["simulator"], r["text"], r["verilog"]))
+        return 1 if r["simulator"] != r["verilog"] else 0
+    if rp["kind"] == "safe-module":
+        from netlist import Netlist
+        from migen.fhdl.tools import list_targets
+        seed = rp["seed"]
+
+        def build():
+            r = random.Random(seed)
+            m, ios = safe_module(r)
+            return m.get_fragment(), sorted(ios, key=lambda s: s.duid)
+        fA, iosA = build()
+        fB, iosB = build()
+        cap = L.convert_capture(fB, iosB)
+        ids, sigs, groups, secs = L.ser_module(cap)
+        name_ids = {cap.ns.get_name(s): ids.get(s) for s in sigs}
+        pv = L.PyVSim(L.parse_module(cap.text, name_ids), name_ids)
+        nl = Netlist(fA, clocks=("sys",))
+        targets = list_targets(cap.f)
+        clks = [cd.clk for cd in cap.f.clock_domains]
+        in_idx = [j for j, s in enumerate(iosB) if s not in targets and not any(s is c for c in clks)]
+        out_idx = [j for j, s in enumerate(iosB) if s in targets]
+        for t, vals in enumerate(rp["trace"]):
+            for j, v in zip(in_idx, vals):
+                nl.set(iosA[j], v)
+                pv.state[ids.get(iosB[j])] = v & ((1 << iosB[j].nbits) - 1)
+            nl.settle()
+            pv.settle()
+            for j in out_idx:
+                a, b = nl.getu(iosA[j]), pv.state[ids.get(iosB[j])]
+                if a != b:
+                    print("cycle %d port %s: simulator %d, verilog %d" % (t, cap.ns.get_name(iosB[j]), a, b))
+                    return 1
+            nl.tick(("sys",))
+            pv.tick({ids.get(c) for c in clks})
+        print("trace replayed without divergence")
+        return 0
     return 0
